@@ -89,3 +89,61 @@ Theorem C10_plain_words_instance :
   quiet_config cfg_markdown && prose_config cfg_markdown && quiet_config cfg_html && prose_config cfg_html = true.
 Proof. vm_compute. repeat split; reflexivity. Qed.
 Print Assumptions C10_plain_words_instance.
+
+(* Clauses 1 and 4 AT EVERY NESTING DEPTH (Proofs/ReflowTree.v): trees of block quotes and lists (any markers and paddings, several
+   items, tight or loose) whose paragraphs are lines of plain words, with fenced code blocks, ATX headings and thematic breaks between
+   them (wtree; wwf is its computable well-formedness: the word condition of C10_plain_words_reflow, the marker and sibling conditions
+   of the C03 fragment, and - after a bullet - content that does not begin with the same bullet).  For EVERY maximum line length L:
+   the Markdown renderer writes the parsed source as the text of reflow L t - the same tree with the words of every paragraph
+   regrouped under the budget its containers leave (L - 2 in a quote, L minus marker and padding in a list item); that tree is in the
+   C03 fragment again (wwf_fragment: everything wf_b asks, including that no item's first line reads as a thematic break, is DERIVED -
+   ThematicItem.v evaluates ThematicBreak.pattern on marker, spaces, x0 ...), so the reflowed text parses to it; its HTML is the
+   original's up to line endings exchanged for spaces (unl); and reflowing the reflowed text with the same limit gives it back. *)
+From Mistletoe Require Import Model.MarkdownRenderer Proofs.ListLaw Spec.Fragment Proofs.FragmentP Proofs.FragmentHtml Proofs.InertProse Proofs.ReflowTree.
+Theorem C10_tree_reflow : forall t L cfg o,
+  wwf t = true ->
+  fragment_config (cfg_block cfg) = true -> prose_spans (cfg_span cfg) = true -> EmphSimple.emph_spans (cfg_span cfg) = true ->
+  inert_spans (cfg_span cfg) = true -> LeafSpans.leaf_spans (cfg_span cfg) = true ->
+  let src := text_of (spell (to_f t)) in
+  let t' := reflow L t in
+  let out := text_of (spell (to_f t')) in
+  render_md (mkMopts false) (Some L) (fst (fst (parse_lines cfg_markdown src))) = concat out /\
+  wf_b (to_f t') = true /\
+  fst (fst (parse_lines cfg out)) = Document [tok_of false (to_f t')] /\
+  render_html o (fst (fst (parse_lines cfg src))) = html_f o false (to_f t) ++ [10] /\
+  render_html o (fst (fst (parse_lines cfg out))) = html_f o false (to_f t') ++ [10] /\
+  unl (html_f o false (to_f t')) = unl (html_f o false (to_f t)) /\
+  render_md (mkMopts false) (Some L) (fst (fst (parse_lines cfg_markdown out))) = concat out.
+Proof. exact tree_reflow. Qed.
+Print Assumptions C10_tree_reflow.
+
+Theorem C10_tree_reflow_pieces :
+  (forall t, wwf t = true -> wf_b (to_f t) = true) /\
+  (forall L t, wwf t = true -> wwf (reflow L t) = true) /\
+  (forall L t, wwf t = true -> block_lines (mkMopts false) (Some L) (tok_of true (to_f t)) = map bare (spell (to_f (reflow L t)))) /\
+  (forall L t, wwf t = true -> reflow L (reflow L t) = reflow L t).
+Proof.
+  split; [exact wwf_fragment|]. split; [intros L t H; apply (reflow_in_fragment L t H)|]. split; [exact reflow_renders|exact reflow_idempotent_tree].
+Qed.
+Print Assumptions C10_tree_reflow_pieces.
+
+Theorem C10_tree_reflow_instance :
+  let p := WPara [[ $"Lorem"; $"ipsum,"; $"(dolor)" ]; [ $"sit"; $"amet;" ]] in
+  let t := WQuote [p; WItem (MBullet 45) 1 [WPara [[ $"consectetur"; $"adipiscing"; $"elit" ]]; WFence 96 3 [SLine 0 120 $" = 1 + 2 + 3 + 4 + 5"]];
+                   WHead 2 110 $"ext";
+                   WMore (MOrdered $"1" 46) 2 [WPara [[ $"sed"; $"do" ]; [ $"eiusmod" ]]] false (WItem (MOrdered $"2" 46) 2 [WQuote [WPara [[ $"tempor"; $"incididunt"; $"ut" ]]]])] in
+  wwf t = true /\
+  text_of (spell (to_f t)) =
+    [ $"> Lorem ipsum, (dolor)" ++ [10]; $"> sit amet;" ++ [10]; $"> " ++ [10];
+      $"> - consectetur adipiscing elit" ++ [10]; $"> " ++ [10]; $">   ```" ++ [10]; $">   x = 1 + 2 + 3 + 4 + 5" ++ [10]; $">   ```" ++ [10]; $"> " ++ [10];
+      $"> ## next" ++ [10]; $"> " ++ [10];
+      $"> 1.  sed do" ++ [10]; $">     eiusmod" ++ [10]; $"> 2.  > tempor incididunt ut" ++ [10] ] /\
+  text_of (spell (to_f (reflow 16 t))) =
+    [ $"> Lorem ipsum," ++ [10]; $"> (dolor) sit" ++ [10]; $"> amet;" ++ [10]; $"> " ++ [10];
+      $"> - consectetur" ++ [10]; $">   adipiscing" ++ [10]; $">   elit" ++ [10]; $"> " ++ [10]; $">   ```" ++ [10]; $">   x = 1 + 2 + 3 + 4 + 5" ++ [10]; $">   ```" ++ [10]; $"> " ++ [10];
+      $"> ## next" ++ [10]; $"> " ++ [10];
+      $"> 1.  sed do" ++ [10]; $">     eiusmod" ++ [10]; $"> 2.  > tempor" ++ [10]; $">     > incididunt" ++ [10]; $">     > ut" ++ [10] ] /\
+  wwf (WItem (MBullet 45) 1 [WItem (MBullet 45) 1 [p]]) = false /\ wwf (WItem (MBullet 45) 1 [WItem (MBullet 42) 1 [p]]) = true /\
+  wwf (WItem (MBullet 45) 1 [WRule 45 0]) = false /\ wwf (WPara [[ $"-" ]]) = false.
+Proof. vm_compute. repeat split; reflexivity. Qed.
+Print Assumptions C10_tree_reflow_instance.
